@@ -225,7 +225,7 @@ Advance(s, d) == [s EXCEPT !.now = s.now + d, !.aged = FALSE]
 
 ResOf(s) == LET ks == SortedSeq({k \in Keys : s.map[k].p})
             IN [i \in DOMAIN ks |->
-                  [k |-> ks[i], v |-> s.map[ks[i]].v, w |-> s.map[ks[i]].w,
+                  [k |-> ks[i], v |-> s.map[ks[i]].v, w |-> s.map[ks[i]].w, tw |-> s.map[ks[i]].w,
                    la |-> s.map[ks[i]].la, lm |-> s.map[ks[i]].lm]]
 
 USnap(s) == [res |-> ResOf(s), ao |-> s.ao, wo |-> s.wo, ec |-> s.ec, ws |-> s.ws,
